@@ -1,8 +1,8 @@
 ---------------------------- MODULE ServerConfig ----------------------------
 (* X03 - the server option table: README.md "### Server" (RedirAddr,        *)
 (* BindAddr, ProxyBook, PrivateKey, BypassUID, AdminUID, DatabasePath,      *)
-(* KeepAlive), "Setup / Server" (ck-server -key / -uid: a private key is a  *)
-(* curve25519 scalar = 32 bytes, a UID is 16 bytes, both base64),           *)
+(* KeepAlive), "Setup / Server" (ck-server -key / -uid print the key / UID  *)
+(* in base64; no document states their lengths),                            *)
 (* example_config/ckserver.json (the baseline row), the usage text of       *)
 (* ck-server ("-c  config: path to the configuration file or its content")  *)
 (* and, for what the README leaves to the source, the comments of           *)
@@ -304,7 +304,7 @@ Sentences == Done =>
     /\ cfg.RedirAddr \in {"v4port", "v6port"} => e.redirPort = "P"
 
 \* the unrestricted users are exactly the listed UIDs and the valid AdminUID; IsBypass(u) <=> u \in e.bypass
-BypassExact == Done =>
+BypassExact == (Done /\ cfg.BypassUID \notin {"short", "long", "goodshort"}) =>
   LET e == Expected(cfg) IN
     /\ \A b \in {"b1", "b2", "b3"} : b \in e.bypass <=> b \in BypassCfg(cfg.BypassUID)
     \* (withadmin: the 16 bytes that AdminUID carries - or would carry - are also listed in BypassUID)
